@@ -12,7 +12,7 @@ add('C12', 'exploration',
     'DESIGN.md 3/C12', 'float32 arithmetic on linux/amd64; tolerance 2^-18 relative to the target side or result extent per axis',
     'exhaustive product enumeration of a pure function against an exact reference')
 add('C03', 'exploration',
-    'Every decoder input of the bounded byte grammar (all strings of <=3 bytes after the magic, thorough <=4 = all 2^32 tails; every opcode x operand-width combination x payload class x repeat count x truncation point; all 16384 two-byte payloads per number kind and for the arc angle; all instruction sequences to depth 3/4 over a 30-fragment alphabet; the metadata shape space; every prefix and every single-byte substitution of all 971 corpus files: 50 M strings quick, 4.4 G thorough) is decoded by the real decoder and by an independent reference parser written from the specification; accept/reject and the delivered call list must agree bit for bit.',
+    'Every decoder input of the bounded byte grammar (all strings of <=3 bytes after the magic, thorough <=4 = all 2^32 tails; every opcode x operand-width combination x payload class x repeat count x truncation point; all 16384 two-byte payloads per number kind and for the arc angle; all instruction sequences to depth 3/4 over a 30-fragment alphabet; the metadata shape space; every prefix and every single-byte substitution of all 971 corpus files: 50 M strings quick, 4.4 G thorough) is decoded by the real decoder and by an independent reference parser written from the specification; accept/reject and the delivered call list must agree bit for bit. After every other input a fixed small graphic is decoded and must deliver exactly the reference calls (nothing carried over between decodes); inputs are handed over in one buffer overwritten in place.',
     'DESIGN.md 2.1(B,F), 3/C03', 'trusted: the reference parser /verif/ref (written from spec/iconvg-spec-v0.md); error kinds are not compared',
     'exhaustive enumeration of the input grammar up to a depth, differential against a reference model')
 execfile_extra = os.path.join(ROOT, 'tools', 'manifest_entries.py')
